@@ -1451,3 +1451,89 @@ func ruleFoldRet(p *Prog, r *Result) {
 	}
 	r.floor("returns of the folder's flag producers", n, 8)
 }
+
+// ---------------- ERRPURE / INITFRESH ----------------
+
+func init() {
+	register("ERRPURE", "rendering an error is a pure function of its current fields: the Error methods of the library's positional error types (and what they call) store nothing into the error value, so binding the query text or changing the padding after a first rendering is reflected by the next one", ruleErrPure)
+	register("INITFRESH", "Init of every cursor plan positions a fresh cursor: the Storage.Cursor call dominates every successful return of Init (a cursor kept from an earlier Init stands wherever the previous execution left it; a range without a lower bound is never re-positioned)", ruleInitFresh)
+}
+
+func ruleErrPure(p *Prog, r *Result) {
+	n := 0
+	for _, tn := range []string{"SyntaxError", "ExecuteError"} {
+		t := p.Named(tn)
+		if t == nil {
+			r.undecided("anchor: %s not found", tn)
+			continue
+		}
+		fn := p.Method(t, "Error")
+		if fn == nil {
+			r.undecided("anchor: (%s).Error not found", tn)
+			continue
+		}
+		n++
+		bad := ""
+		for _, f := range p.staticClosure(fn, 3, nil) {
+			allInstrs(f, func(in ssa.Instruction) {
+				if st, ok := in.(*ssa.Store); ok {
+					if o, fl, base, ok := fieldOfAddr(st.Addr); ok && o == t {
+						if _, fresh := base.(*ssa.Alloc); !fresh {
+							bad = fmt.Sprintf("%s stores into field %s at %s while rendering: a later BindQuery or SetPadding is not seen by the next Error()", p.FName(f), fl, p.InstrPos(st))
+						}
+					}
+				}
+			})
+		}
+		r.add(bad == "", tn+".Error", p.Pos(fn.Pos()), firstNonEmpty(bad, "rendering stores nothing into the error value"))
+	}
+	r.floor("positional error types", n, 2)
+}
+
+func ruleInitFresh(p *Prog, r *Result) {
+	plans, _, _ := p.planTypes()
+	n := 0
+	for _, t := range plans {
+		cl := p.planClass(t)
+		if cl != "range" && cl != "prefix" && cl != "full" {
+			continue
+		}
+		fn := p.Method(t, "Init")
+		if fn == nil {
+			continue
+		}
+		var cur ssa.Instruction
+		for _, s := range p.storage().ByFn[fn] {
+			if s.Method == "Storage.Cursor" {
+				cur = s.Instr
+			}
+		}
+		n++
+		key := t.Obj().Name() + ".Init"
+		if cur == nil {
+			r.hit(key, p.Pos(fn.Pos()), "Init does not create a cursor")
+			continue
+		}
+		bad := ""
+		for _, b := range fn.Blocks {
+			ret := retOf(b)
+			if ret == nil || len(ret.Results) == 0 {
+				continue
+			}
+			// successful return: the error result can be nil
+			ev := retVal(ret, len(ret.Results)-1)
+			if !isNilConst(ev) {
+				// an error value from Cursor/Seek: fine either way, but the cursor call must still precede it
+				if !instrDominates(cur, ret) {
+					bad = "a return at " + p.InstrPos(ret) + " is reached without creating a cursor"
+				}
+				continue
+			}
+			if !instrDominates(cur, ret) {
+				bad = "Init can succeed (" + p.InstrPos(ret) + ") without creating a new cursor: the plan keeps the cursor of an earlier Init wherever the previous execution left it"
+			}
+		}
+		r.add(bad == "", key, p.InstrPos(cur), firstNonEmpty(bad, "every return of Init follows the creation of a new cursor"))
+	}
+	r.floor("cursor plans", n, 3)
+}
